@@ -384,35 +384,36 @@ mk_file(int min_rank)
     g_hmc_calls = g_conv_calls = g_conv_ok = g_hmc_ok = 0;
     H4V_ND(int, nvars);
     H4V_ASSUME(nvars >= 1 && nvars <= NV);
-    for (int i = 0; i < NV; i++) {
-        H4V_ND(int, rank);
-        H4V_ASSUME(rank >= min_rank && rank <= MAXR);
-        s_as[i].count  = (unsigned)rank;
-        s_as[i].values = NULL;
-        s_var[i].assoc = &s_as[i];
-        if (rank == 0) /* NC_var_shape leaves shape/dsizes of a scalar variable NULL */
-            s_var[i].shape = NULL;
-        else {
-            H4V_ND_BUF(h4v_ulong, shape, rank, MAXR);
-            for (int j = 0; j < MAXR; j++) /* extents are int32 dimension sizes (NC_dim.size) */
-                if (j < rank)
-                    H4V_ASSUME(shape[j] <= 2147483647UL);
-            s_var[i].shape = shape;
-        }
-        H4V_ND(int, v_numrecs);
-        H4V_ND(int32, v_aid);
-        H4V_ND(int32, v_created);
-        H4V_ND(int32, v_set_length);
-        H4V_ASSUME(v_numrecs >= 0);
-        s_var[i].numrecs    = v_numrecs;
-        s_var[i].aid        = v_aid;
-        s_var[i].created    = v_created;
-        s_var[i].set_length = v_set_length;
-        s_var[i].data_tag   = DATA_TAG;
-        s_var[i].data_ref   = 2;
-        s_var[i].attrs      = NULL;
-        s_tab[i]            = &s_var[i];
+    /* (one named shape vector per variable: the replay maps values back by name) */
+#define MK_VAR(i, SHP)                                                                               \
+    {                                                                                                \
+        H4V_ND(int, rank);                                                                           \
+        H4V_ASSUME(rank >= min_rank && rank <= MAXR);                                                \
+        s_as[i].count  = (unsigned)rank;                                                             \
+        s_as[i].values = NULL;                                                                       \
+        s_var[i].assoc = &s_as[i];                                                                   \
+        H4V_ND_BUF(h4v_ulong, SHP, rank, MAXR);                                                      \
+        for (int j = 0; j < MAXR; j++) /* extents are int32 dimension sizes (NC_dim.size) */         \
+            if (j < rank)                                                                            \
+                H4V_ASSUME(SHP[j] <= 2147483647UL);                                                  \
+        /* NC_var_shape leaves shape/dsizes of a scalar variable NULL */                             \
+        s_var[i].shape = (rank == 0) ? NULL : SHP;                                                   \
+        H4V_ND(int, v_numrecs);                                                                      \
+        H4V_ND(int32, v_aid);                                                                        \
+        H4V_ND(int32, v_created);                                                                    \
+        H4V_ND(int32, v_set_length);                                                                 \
+        H4V_ASSUME(v_numrecs >= 0);                                                                  \
+        s_var[i].numrecs    = v_numrecs;                                                             \
+        s_var[i].aid        = v_aid;                                                                 \
+        s_var[i].created    = v_created;                                                             \
+        s_var[i].set_length = v_set_length;                                                          \
+        s_var[i].data_tag   = DATA_TAG;                                                              \
+        s_var[i].data_ref   = 2;                                                                     \
+        s_var[i].attrs      = NULL;                                                                  \
+        s_tab[i]            = &s_var[i];                                                             \
     }
+    MK_VAR(0, shape0)
+    MK_VAR(1, shape1)
     s_vars.count  = (unsigned)nvars;
     s_vars.values = (uint8_t *)s_tab;
     H4V_ND(unsigned, h_flags);
